@@ -958,6 +958,9 @@ class SBytes:
             window = self.slice(start, end)  # same normalisation as the program's own x[start:end]
             has = window.sym_contains(bytes(sub))
             c.add(tbool(has) == (r.t != -1) if not isinstance(has, bool) else ((r.t != -1) == has))
+            # a hit is a hit: the bytes at the reported position are the needle
+            if sub and not self.is_concrete():
+                c.add(z3.Implies(r.t != -1, z3.And(*[self._byte_term(r.t + j) == ch for j, ch in enumerate(bytes(sub))])))
         return r
 
     # -- content predicates (uninterpreted, keyed by the provenance of the bytes) ---------------------------------
@@ -994,14 +997,34 @@ class SBytes:
             return self.pred("contains_byte", needle)
         raise Unsupported(f"{type(needle).__name__} in symbolic bytes")
 
-    def startswith(self, prefix, *a):
-        if a or not isinstance(prefix, (bytes, bytearray)):
-            raise Unsupported("startswith(range / symbolic)")
-        k = len(prefix)
-        conj = [tint(self.length()) >= k]
-        for j, ch in enumerate(prefix):
-            conj.append(self._byte_term(j) == ch)
-        return mk_bool(z3.And(*conj))
+    def startswith(self, prefix, start=None, end=None):
+        if end is not None:
+            raise Unsupported("startswith(..., end)")
+        base = self if start is None else self.slice(start, None)
+        prefixes = prefix if isinstance(prefix, tuple) else (prefix,)
+        alts = []
+        for pf in prefixes:
+            if not isinstance(pf, (bytes, bytearray)):
+                raise Unsupported("startswith(symbolic)")
+            conj = [tint(base.length()) >= len(pf)]
+            for j, ch in enumerate(pf):
+                conj.append(base._byte_term(j) == ch)
+            alts.append(z3.And(*conj))
+        return mk_bool(z3.Or(*alts) if len(alts) != 1 else alts[0])
+
+    def lstrip(self, chars=None):
+        """the result is the suffix from k on; facts: the first and the last stripped byte are in `chars`, the first
+        kept byte is not (the bytes in between are only known through these end points)"""
+        cs = bytes(chars) if chars is not None else b" \t\n\r\x0b\x0c"
+        k = fresh_int("lstrip.len", register=False)
+        c = ctx()
+        n = tint(self.length())
+        c.add(z3.And(k.t >= 0, k.t <= n))
+        member = lambda t: z3.Or(*[t == ch for ch in cs]) if cs else z3.BoolVal(False)
+        if not z3.is_int_value(z3.simplify(n)) or z3.simplify(n).as_long() > 0:
+            c.add(z3.Implies(k.t > 0, z3.And(member(self._byte_term(0)), member(self._byte_term(k.t - 1)))))
+            c.add(z3.Implies(k.t < n, z3.Not(member(self._byte_term(k.t)))))
+        return self.slice(k, None)
 
     def endswith(self, suffix, *a):
         if a or not isinstance(suffix, (bytes, bytearray)):
